@@ -464,15 +464,15 @@ Proof.
     + intros j Hj. eapply act_nochunk; eauto. unfold after_getseq; cbn. destruct (w_cctx w); cbn; auto.
   - (* WGetBuf *)
     assert (K1 : KInv cfg (set_pl (pl_bp (take (bp_nb (pl s))) (pl s)) s)) by (apply kinv_set_pl; auto).
+    destruct (negb _); inv_some H; (apply kinv_act0 with (w := w); auto; rewrite ?Epc; try reflexivity;
+      intros j Hj; eapply act_nochunk; eauto; cbn; auto).
+  - (* WSetDst *)
     destruct (k_wrk _ _ K t w Hw) as (i & Hi & Hk & Hact0); [rewrite Epc; reflexivity|].
-    destruct (negb _).
-    + inv_some H. apply kinv_act0 with (w := w); auto; rewrite ?Epc; try reflexivity.
-      intros j Hj. eapply act_nochunk; eauto. cbn; auto.
-    + assert (Hj : forall p', match p' with WChunk _ => False | _ => True end ->
-                   Act cfg p' (j_set_dst true (getj s (w_slot w)))).
-      { intros p' Hp'. destruct Hact0 as (A & B & C). repeat split; auto. destruct p'; auto; contradiction. }
-      repeat match type of H with (if ?b then _ else _) = _ => destruct b end; inv_some H;
-      (eapply kinv_act with (w := w) (s := set_pl (pl_bp (take (bp_nb (pl s))) (pl s)) s); eauto; rewrite ?Epc; try reflexivity; apply Hj; cbn; auto).
+    assert (Hj : forall p', match p' with WChunk _ => False | _ => True end ->
+                 Act cfg p' (j_set_dst true (getj s (w_slot w)))).
+    { intros p' Hp'. destruct Hact0 as (A & B & C). repeat split; auto. destruct p'; auto; contradiction. }
+    repeat match type of H with (if ?b then _ else _) = _ => destruct b end; inv_some H;
+    (eapply kinv_act with (w := w); eauto; rewrite ?Epc; try reflexivity; apply Hj; cbn; auto).
   - (* WJobErr *)
     destruct (k_wrk _ _ K t w Hw) as (i & Hi & Hk & Hact0); [rewrite Epc; reflexivity|].
     inv_some H. eapply kinv_act with (w := w); eauto; rewrite ?Epc; try reflexivity.
